@@ -40,3 +40,11 @@ def as_held(r, a, forms=FORMS, allow_list=True):
             np.abs(a).max() < 2 ** 31:
         return a.astype(np.int64), "int64"
     return a.copy(), "c"
+
+
+def as_flag(r, v):
+    """A truth value in a type a caller may hold it in: the Python bool (two
+    of five), a NumPy bool (element of a flag array, result of a comparison
+    on arrays), or 0 / 1 as Python or NumPy integer.  Same truth value."""
+    t = (bool, bool, np.bool_, int, np.int64)[int(r.integers(0, 5))]
+    return t(bool(v))
